@@ -44,6 +44,14 @@ func init() {
 		if w, err := version.Parse(v.String()); err != nil || w != v {
 			return fmt.Sprintf("FAIL String()=%q reparses to %v %v", v.String(), w, err)
 		}
+		// the two predicates on the parts
+		if v.Empty() != (v.Epoch == 0 && v.Version == "" && v.Revision == "") || (version.Version{}).Empty() != true ||
+			(version.Version{Epoch: 1}).Empty() || (version.Version{Revision: "1"}).Empty() || (version.Version{Version: "1"}).Empty() {
+			return fmt.Sprintf("FAIL Empty() of %v = %v", v, v.Empty())
+		}
+		if v.IsNative() != (v.Revision == "") {
+			return fmt.Sprintf("FAIL IsNative() of %v = %v", v, v.IsNative())
+		}
 		ctl, _ := v.MarshalControl()
 		w := version.Version{Epoch: 99, Version: "stale", Revision: "stale"}
 		if err := w.UnmarshalControl(ctl); err != nil || w != v {
